@@ -622,7 +622,7 @@ func (x *Exec) builtin(st *State, fr *Frame, name string, args []Value, call *ss
 		}
 		return single(st, x.symbolic(st, intT, "cap"))
 	case "append":
-		if os.Getenv("GOVC_APPEND_ITE") == "" && args[1].Len != "0" {
+		if os.Getenv("GOVC_APPEND_ITE") == "" && args[1].Len != "0" && !x.boundedRun && x.bounded == 0 {
 			// explore "fits in the capacity" and "reallocates" as two paths: each
 			// VC then speaks about one concrete region instead of ite-terms
 			fits := mkCmp("<=", mkAdd(args[0].Len, args[1].Len), args[0].Cap)
